@@ -108,7 +108,7 @@ func hangBound() time.Duration {
 			return d
 		}
 	}
-	return 10 * time.Second
+	return 30 * time.Second
 }
 
 // known findings: signature -> description (only "finding:" lines suppress)
